@@ -92,7 +92,7 @@ impl Prop for C05 {
 		vec![
 			"values are presented in one canonical serde presentation per node kind plus the presentation knobs of `Presented` (decimals as strings)".into(),
 			"sink accepts everything (sink faults are C16's), no caller failure (C15's)".into(),
-			"xz levels 7-9 are not exercised (encoder memory ~0.2-0.7 GiB per block x 16 workers)".into(),
+			"xz presets 7-9 are exercised rarely (encoder memory ~0.2-0.7 GiB per block)".into(),
 		]
 	}
 	fn expected_probes(&self) -> Vec<&'static str> {
